@@ -223,6 +223,10 @@ var elemUndecided atomic.Int64
 
 // judgeElem returns "" if the result is acceptable, otherwise what is wrong. cell describes the case.
 func judgeElem(fn string, x, got ref.Val) (verdict, want, cell string) {
+	return judgeElemSlack(fn, x, got, nil)
+}
+
+func judgeElemSlack(fn string, x, got ref.Val, slack *big.Float) (verdict, want, cell string) {
 	if ex, ok := exactWant(fn, x); ok {
 		cell = "exact-case"
 		okv := ref.SameValue(got, ex)
@@ -298,6 +302,12 @@ func judgeElem(fn string, x, got ref.Val) (verdict, want, cell string) {
 		return "", "", cell
 	}
 	lo := new(big.Float).SetPrec(700).Sub(err, rad)
+	if slack != nil {
+		lo.Sub(lo, new(big.Float).SetPrec(700).Mul(u, slack))
+		if lo.Cmp(u) <= 0 {
+			return "", "", cell
+		}
+	}
 	if lo.Cmp(u) > 0 {
 		ulps := new(big.Float).Quo(err, u)
 		return fmt.Sprintf("error %s ulp (spacing 1e%d)", ulps.Text('g', 6), q), t2.Text('e', 40), cell
@@ -323,6 +333,68 @@ func checkElem(w *eng.W, fi int, b ref.Bits) {
 	}
 }
 
+// judgeElemAnyMode is the mode-independent part of the property: within one unit in the last place of the true
+// result, whatever DefaultRoundingMode is (exactness of representable results and the Inf/zero conventions at the
+// range ends are stated for the default mode and judged there only).
+func judgeElemAnyMode(fn string, x, got ref.Val) (verdict, want, cell string) {
+	if ex, ok := exactWant(fn, x); ok {
+		cell = "exact-case"
+		if got.Class != ref.Fin {
+			return "non-finite result for an exactly representable true result", ex.String(), cell
+		}
+		t := valF(ex)
+		if ex.Neg {
+			t.Neg(t)
+		}
+		u, _ := ulpAt(t)
+		g := valF(got)
+		if got.Neg {
+			g.Neg(g)
+		}
+		err := new(big.Float).SetPrec(700).Sub(g, t)
+		err.Abs(err)
+		// valF rounds to 700 bits: a 2^-600 guard relative to the operands covers it; plus the any-mode slack
+		guard := new(big.Float).SetPrec(700).Abs(t)
+		if ag := new(big.Float).Abs(g); ag.Cmp(guard) > 0 {
+			guard = ag
+		}
+		guard.SetMantExp(guard, -600)
+		guard.Add(guard, new(big.Float).SetPrec(700).Mul(u, anyModeSlack))
+		if err.Cmp(new(big.Float).SetPrec(700).Add(u, guard)) > 0 {
+			return "more than one ulp from the exactly representable true result", ex.String(), cell
+		}
+		return "", "", cell
+	}
+	verdict, want, cell = judgeElemSlack(fn, x, got, anyModeSlack)
+	switch cell {
+	case "value", "subnormal-result", "nan", "undecided":
+		return verdict, want, cell
+	}
+	return "", "", "range-end(default mode only)"
+}
+
+// anyModeSlack: under a directed default mode a faithfully rounded result of a true value that lies within a hair of a
+// representable number (Exp(-2e-60) = 1 - 2e-60, Log(1+1e-30) = 1e-30 - 5e-61 + 3e-91) can land one unit plus that
+// hair away (the guard digits erred on the other side of the representable number). Such results are not flagged:
+// the bound applied under the non-default modes is (1 + 1e-20) units.
+var anyModeSlack = new(big.Float).SetPrec(700).Quo(big.NewFloat(1), new(big.Float).SetInt(ref.Pow10(20)))
+
+func checkElemDRM(w *eng.W, fi int, b ref.Bits, drm int) {
+	fn := elemFns[fi]
+	x := ref.Decode(b)
+	if x.Class != ref.Fin || !fn.domain(x) {
+		return
+	}
+	w.Set1(fn.name, "", b)
+	got := ref.Decode(B(fn.lib(D(b))))
+	w.Eval()
+	verdict, want, cell := judgeElemAnyMode(fn.name, x, got)
+	w.Cell(fn.name+"/any-default-mode/"+cell, true)
+	if verdict != "" {
+		w.R.Fail(eng.Case{Op: fn.name, Args: []string{b.Hex()}, DRM: MName(drm), Got: got.String(), Want: want, Note: verdict + "; x=" + x.String()})
+	}
+}
+
 func init() {
 	for i, f := range elemFns {
 		i, f := i, f
@@ -330,6 +402,17 @@ func init() {
 			b, err := ref.ParseHex(c.Args[0])
 			if err != nil {
 				return "", "", err
+			}
+			if c.DRM != "" && ModeIndex(c.DRM) > 0 {
+				saved := dec.DefaultRoundingMode
+				dec.DefaultRoundingMode = LibModes[ModeIndex(c.DRM)]
+				got := V(elemFns[i].lib(D(b)))
+				dec.DefaultRoundingMode = saved
+				verdict, want, _ := judgeElemAnyMode(f.name, ref.Decode(b), got)
+				if verdict == "" {
+					return "ok", "ok", nil
+				}
+				return got.String(), want + " (" + verdict + ")", nil
 			}
 			got := V(elemFns[i].lib(D(b)))
 			verdict, want, _ := judgeElem(f.name, ref.Decode(b), got)
@@ -519,7 +602,7 @@ func C16(r *eng.Run) {
 		"all exact cases (integers for Exp10/Exp2, powers of two and ten for the logarithms, zeros, 1), the overflow/underflow thresholds of Exp/Exp2/Exp10 to +-3 units in the last place, and coefficient shapes across exponents; " +
 		"oracle: exp/log evaluated on math/big.Float at two working precisions (320 and 512 bits) forming an enclosure; a result is rejected only if its error exceeds one unit in the last place at the true result over the whole enclosure, accepted only if it is within it over the whole enclosure, otherwise counted undecided; " +
 		"exactly representable true results must be returned exactly; Inf/zero only beyond the range. Non-trivial = exact cases, thresholds, subnormal and saturating results."
-	r.Assumptions = []string{"binary codec is the identity on bits (checked at start; decided by C12)", "judged under DefaultRoundingMode = ToNearestEven only",
+	r.Assumptions = []string{"binary codec is the identity on bits (checked at start; decided by C12)", "exactness of representable results and the Inf/zero conventions at the range ends are judged under DefaultRoundingMode = ToNearestEven; the one-ulp bound under all six",
 		"the oracle is numerical: two-precision enclosure with a 2^-280 relative guard; cross-checked against the repository's 135 vectors per function on every run"}
 	if !CodecSanity(r) {
 		return
@@ -536,8 +619,25 @@ func C16(r *eng.Run) {
 	})
 	r.Extra["undecided"] = elemUndecided.Load()
 	r.Phase("argument alphabet x 8 functions", t0, nil)
+	// the one-ulp bound under every other DefaultRoundingMode (the functions round their extended result with it)
+	t0 = time.Now()
+	saved := dec.DefaultRoundingMode
+	for drm := 1; drm < 6; drm++ {
+		dec.DefaultRoundingMode = LibModes[drm]
+		r.Par(len(args)*len(elemFns), func(w *eng.W, k int) {
+			ai := k / len(elemFns)
+			// each argument is judged under one other mode, chosen by its bits (the same choice in both tiers)
+			if int(((args[ai].Hi()*0x9e3779b97f4a7c15)^(args[ai].Lo()*0xc2b2ae3d27d4eb4f))>>17%5) != drm-1 {
+				return
+			}
+			checkElemDRM(w, k%len(elemFns), args[ai], drm)
+		})
+	}
+	dec.DefaultRoundingMode = saved
+	r.Extra["undecided"] = elemUndecided.Load()
+	r.Phase("one-ulp bound under the five other default rounding modes", t0, nil)
 	for _, f := range elemFns {
-		r.Require(f.name+"/value", f.name+"/exact-case")
+		r.Require(f.name+"/value", f.name+"/exact-case", f.name+"/any-default-mode/value", f.name+"/any-default-mode/exact-case")
 	}
 	r.Require("Exp/sure-overflow", "Exp/sure-underflow", "Expm1/expm1-saturated", "Exp/subnormal-result", "Exp10/above-max")
 }
